@@ -57,6 +57,7 @@ Theorem C13_reflects_changes : forall cfg st o ob name v,
   let st' := fst (step cfg (OSet o name v) st) in
   comp_at st' o = Some (KColl, set_attr name v (oattrs ob), onitems ob) /\
   (forall t, t <> o -> comp_at st' t = comp_at st t) /\
+  ptab st' = ptab st /\ inflight st' = inflight st /\
   snd (step cfg (OSet o name v) st) = Ok AUnit.
 Proof. exact setattr_effect. Qed.
 
@@ -72,7 +73,9 @@ Proof. exact other_objects_irrelevant. Qed.
 
 (* FULL: deepcopy leaves every existing object (attributes, flag, cache) as it was *)
 Theorem C13_copy_keeps_originals : forall cfg st o t ob, get st t = Some ob ->
-  get (fst (step cfg (OCopy o) st)) t = Some ob.
+  exists ob', get (fst (step cfg (OCopy o) st)) t = Some ob' /\
+              okind ob' = okind ob /\ oattrs ob' = oattrs ob /\ onitems ob' = onitems ob /\ oidn ob' = oidn ob /\
+              ofrozen ob' = ofrozen ob /\ (epochs cfg = false -> ob' = ob).
 Proof. exact copy_keeps_originals. Qed.
 
 (* HISTORY, REFUTED for the wrapper without try/finally (the code before 5afd9f1; Model.wrapper_cleanup = false):
@@ -85,17 +88,19 @@ Theorem C13_coherent_refuted_stale_ancestor : ~ coherent_everywhere cfg_fixed.
 Proof. exact refuted_stale_ancestor. Qed.
 
 (* for the repaired wrapper (try/finally) failing calls are inside the guard *)
-Theorem C13_repaired_allows_failing_calls : forall cl pr d i st o, guard (mkConfig cl pr true d i) st (OFailWalk o).
+Theorem C13_repaired_allows_failing_calls : forall cl pr d i gd gt ep st o,
+  guard (mkConfig cl pr true d i gd gt ep) st (OFailWalk o).
 Proof. exact repaired_allows_failing_calls. Qed.
 
 (* FULL (given a successful freeze, i.e. enough fuel / a finite acyclic depth): freeze reaches every
    Model / Collection below, so all of them reject assignment afterwards *)
-Theorem C13_freeze_reaches_descendants : forall n o st, Inv st -> snd (freeze n o st) = Ok tt ->
-  forall t, PMReach st o t -> frozen_at (fst (freeze n o st)) t.
+Theorem C13_freeze_reaches_descendants : forall cfg n o st, Inv st -> snd (freeze cfg n o st) = Ok tt ->
+  forall t, PMReach st o t ->
+    frozen_at (fst (freeze cfg n o st)) t /\ tuples_frozen_at cfg st (fst (freeze cfg n o st)) t.
 Proof. exact freeze_reaches_all. Qed.
 
 Theorem C13_frozen_rejects_at_depth : forall cfg st o t name v, Inv st ->
-  snd (freeze FUEL o st) = Ok tt -> PMReach st o t ->
+  snd (freeze cfg FUEL o st) = Ok tt -> PMReach st o t ->
   (exists tb, get st t = Some tb /\ okind tb <> KTuple) ->
   let st' := fst (step cfg (OFreeze o) st) in
   step cfg (OSet t name v) st' = (st', Exn EAssertion).
@@ -134,6 +139,7 @@ Proof. exact append_effect. Qed.
 
 Theorem C13_delattr_effect : forall cfg st o ob name w,
   get st o = Some ob -> sassoc name (oattrs ob) = Some w ->
+  del_guarded cfg (okind ob) && ofrozen ob = false ->
   let st' := fst (step cfg (ODel o name) st) in
   comp_at st' o = Some (okind ob, del_attr name (oattrs ob), onitems ob) /\
   (forall t, t <> o -> comp_at st' t = comp_at st t) /\
@@ -184,8 +190,32 @@ Theorem C13_derive_keeps_flags_legacy_refuted : ~ derive_keeps_flags cfg_repaire
 Proof. exact derive_thaws_flags. Qed.
 
 (* the configuration the theorems are instantiated with by the correspondence is today's code *)
-Theorem C13_current_configuration : mkConfig cls0 pri0 wrapper_cleanup derive_thaws setitem_transfers = cfg_fixed.
+Theorem C13_current_configuration : wrapper_cleanup = true /\ derive_thaws = false /\ setitem_transfers = false.
 Proof. exact current_is_fixed. Qed.
+
+(* PREPARED for the three proposed repairs of the remaining findings (C13-delattr-guard, C13-tuple-prior-frozen,
+   C13-cache-modification-count; constants delattr_guarded / tuples_frozen / cache_counts_modifications, off today):
+   with all of them the FULL statement holds -- every query of EVERY history answers the uncached query on the
+   current composition, no guard left *)
+Theorem C13_coherent_full_when_repaired : forall cfg, all_repaired cfg -> coherent_everywhere cfg.
+Proof. exact coherent_when_repaired. Qed.
+
+Theorem C13_frozen_rejects_delattr : forall cfg st o ob name,
+  gdel cfg = true -> get st o = Some ob -> okind ob <> KTuple -> ofrozen ob = true ->
+  step cfg (ODel o name) st = (st, Exn EAssertion).
+Proof. exact frozen_rejects_delattr. Qed.
+
+Theorem C13_frozen_tuple_rejects_setattr : forall cfg st t tb name v,
+  gtuple cfg = true -> get st t = Some tb -> okind tb = KTuple -> ofrozen tb = true ->
+  step cfg (OSet t name v) st = (st, Exn EAssertion).
+Proof. exact frozen_tuple_rejects_setattr. Qed.
+
+Theorem C13_frozen_tuples_reject_at_depth : forall cfg st o t kd attrs k u name v, Inv st -> gtuple cfg = true ->
+  snd (freeze cfg FUEL o st) = Ok tt -> PMReach st o t ->
+  view st t = Some (kd, attrs) -> In (k, VRef u) attrs -> is_tuple st u = true ->
+  let st' := fst (step cfg (OFreeze o) st) in
+  step cfg (OSet u name v) st' = (st', Exn EAssertion).
+Proof. exact frozen_tuples_reject_at_depth. Qed.
 
 Print Assumptions C13_coherent_partial.
 Print Assumptions C13_history_independent.
@@ -194,3 +224,4 @@ Print Assumptions C13_coherent_refuted_stale_ancestor.
 Print Assumptions C13_freeze_reaches_descendants.
 Print Assumptions C13_setitem_is_local.
 Print Assumptions C13_derive_is_a_query.
+Print Assumptions C13_coherent_full_when_repaired.
